@@ -290,13 +290,13 @@ type GenOpts struct {
 }
 
 type genCtx struct {
-	o        GenOpts
-	budget   int
-	loopN    int
-	underPar bool // inside a par branch: no early end
-	underInc bool
+	o         GenOpts
+	budget    int
+	loopN     int
+	underPar  bool // inside a par branch: no early end
+	underInc  bool
 	underFork bool // inside par or inc branch
-	inLoop   bool
+	inLoop    bool
 }
 
 // GenProgram draws a block-structured program.
@@ -556,9 +556,9 @@ func (c *genCtx) incBranch(t *rapid.T, depth int) *Block {
 // Features classifies a program for the evidence histogram.
 type Features struct {
 	Tasks, Xor, Par, Inc, Loop, Sub, CTask, MMerge, EarlyEnd int
-	Depth                                                     int
-	MixedNest                                                 bool // a gateway block nested in a gateway block of a different kind
-	IncNested                                                 bool // pattern of finding C05-F1
+	Depth                                                    int
+	MixedNest                                                bool // a gateway block nested in a gateway block of a different kind
+	IncNested                                                bool // pattern of finding C05-F1
 }
 
 func (b *Block) Features() Features {
